@@ -227,3 +227,58 @@ Theorem C04_file_frozen_after_finalize :
     Forall (fun s' => ws_file s' = ws_file s) (map fst (trace (impl_step hdrdec f) s ops)).
 Proof. exact file_frozen. Qed.
 Print Assumptions C04_file_frozen_after_finalize.
+
+(* ---- across reopen (composition with C12's resume model) ------------------------------------------------- *)
+From GoCar Require Import Scan Crash.
+From GoCarProofs Require ResumeInv StoreSpecResume.
+
+(* (A) Whatever file a session left behind -- [cut_file c st]: the live file after Discard, or the
+   finalized CARv2 -- holding the blocks [st]: reopening it (ResumableVersion + Resume) succeeds and the
+   reopened store refines the reference map PRE-LOADED with [st], for every front-end and history *)
+Theorem C04_refines_map_resumed :
+  forall (hdrdec : bytes -> option (list bytes * N)) (k : skind) (o : wopts) (nilroots : bool)
+         (roots : list bytes),
+    hdrdec (enc_header (roots_opt nilroots roots) 1) = Some (roots, 1) ->
+    (exists r, hdrdec pragma_body = Some (r, 2)) ->
+    blen (enc_header (roots_opt nilroots roots) 1) <= w_maxh o ->
+    w_maxcid o <= max_digest_alloc ->
+    forall (c : cut) (st : list block) (f : front) (ops : list sop),
+    Forall (fun b => (exists p, cid_ok p /\ fst b = cid_enc p /\ blen (c_digest p) <= max_digest_alloc) /\
+                     blen (fst b) + blen (snd b) <= w_maxs o /\ blen (fst b) + blen (snd b) < two63) st ->
+    51 + w_dpad o + w_ipad o + ld_size (blen (enc_header (roots_opt nilroots roots) 1)) + blen (enc_sections st) < two63 ->
+    Forall (op_ok o) ops ->
+    51 + w_dpad o + w_ipad o + ld_size (blen (enc_header (roots_opt nilroots roots) 1)) + blen (enc_sections st)
+      + ops_size ops < two64 ->
+    exists s, reopen hdrdec k o nilroots roots (ResumeInv.cut_file o nilroots roots c st) = inl s /\
+              outs (trace (impl_step hdrdec f) s ops) = outs (trace (spec_step f o roots) (mkm st false false) ops).
+Proof. exact StoreSpecResume.refines_map_resumed_x. Qed.
+Print Assumptions C04_refines_map_resumed.
+
+(* (B) From an empty file: a session of Puts and queries, ended by Discard or Finalize ([end_seg c]); the
+   file it leaves reopens, and the reopened store continues exactly as the reference map holding the
+   session's blocks, with fresh flags -- for every continuation, lifecycle calls included *)
+Theorem C04_refines_map_across_reopen :
+  forall (hdrdec : bytes -> option (list bytes * N)) (k : skind) (o : wopts) (nilroots : bool)
+         (roots : list bytes),
+    hdrdec (enc_header (roots_opt nilroots roots) 1) = Some (roots, 1) ->
+    (exists r, hdrdec pragma_body = Some (r, 2)) ->
+    blen (enc_header (roots_opt nilroots roots) 1) <= w_maxh o ->
+    w_maxcid o <= max_digest_alloc ->
+    forall (f : front) (c : cut) (ops1 ops2 : list sop) (s0 : wstate),
+    (match f with FSt _ => exists w, k = KStorage w | _ => k = KBlockstore end) ->
+    match k with KStorage false => negb (w_v1 o) | _ => false end = false ->
+    open_new k o nilroots roots [] = Ok s0 ->
+    Forall (fun op => match op with OpPut _ _ | OpHas _ | OpGet _ | OpGetSize _ | OpKeys | OpRoots => true
+                                  | _ => false end = true) ops1 ->
+    Forall (op_ok o) ops1 -> Forall (op_ok o) ops2 ->
+    51 + w_dpad o + w_ipad o + ld_size (blen (enc_header (roots_opt nilroots roots) 1))
+      + ops_size ops1 + ops_size ops2 < two63 ->
+    exists s2,
+      reopen hdrdec k o nilroots roots
+             (ws_file (end_seg c (last (map fst (trace (impl_step hdrdec f) s0 ops1)) s0))) = inl s2 /\
+      outs (trace (impl_step hdrdec f) s2 ops2)
+      = outs (trace (spec_step f o roots)
+                    (mkm (m_blocks (last (map fst (trace (spec_step f o roots) m_empty ops1)) m_empty)) false false)
+                    ops2).
+Proof. exact StoreSpecResume.refines_map_across_reopen_x. Qed.
+Print Assumptions C04_refines_map_across_reopen.
